@@ -145,6 +145,44 @@ CLAIMED.update({
               "wrapper plus compile-fail witnesses with compiling twins. Hence every interleaving is equivalent to a sequential one."),
         note="Trusted: rustc MIR, immutability of realfft/rustfft plans, planner determinism; constructor half is best effort (indirect calls listed in evidence).",
         design="5 C18", engine="mirfacts(M+P)+astfacts+witness"),
+
+    "C01": dict(
+        level="other",
+        technique="necessary-condition rules: exact polynomial algebra, symbolic evaluation-instant model of the polyphase table, sibling agreement, range-cover dataflow of the FFT unit",
+        text=("NECESSARY STRUCTURAL CONDITIONS ONLY - the numeric substance (amplitude within 1 %/0.1 %, leakage bounds) is not decidable statically and is not claimed. Decided for all "
+              "inputs: interp_cubic/quad/lin are the exact Lagrange interpolants on nodes equal to the sub-index offsets of get_nearest_times_{4,3,2} (with seamless wrap), every arm "
+              "pairs them correctly with x = frac(idx*factor); the fractional-delay table is centred at totpoints/2, scaled by f_cutoff/factor, oriented so that sub-filter s+1 "
+              "evaluates 1/factor later and continuous across the sub-index wrap; In/Out arms agree; the cutoff is never lowered; kernels add each tap once; the FFT unit has the "
+              "right overlap-add structure, scaling and retained bins."),
+        note="Trusted: syn parser, sympy, realfft transforms unnormalised. Everything numeric is listed under not_decided in the evidence.",
+        design="5 C01", engine="astfacts+rules"),
+    "C02": dict(
+        level="other",
+        technique="necessary-condition rules: piecewise cutoff algebra, window-table exhaustiveness and exact window definitions (syntax tree + sympy)",
+        text=("NECESSARY STRUCTURAL CONDITIONS ONLY - no attenuation figure is decided. Decided: the cutoff handed to every kernel is at most f_cutoff, and at most f_cutoff*ratio when "
+              "down-sampling (removing that scaling is reported); the FFT unit's cutoff is calculate_cutoff(min(in,out))*min(1,out/in) and its spectrum is truncated to min(in+1,out) bins and "
+              "zero-filled; every WindowFunction variant selects the base window named after it, exactly the X2 variants are squared, no wildcard arm swallows a variant, the three base "
+              "windows equal their textbook periodic definitions, calculate_cutoff covers all variants with the documented closed form."),
+        note="Trusted: syn parser, sympy.",
+        design="5 C02", engine="astfacts+rules"),
+    "C11": dict(
+        level="other",
+        technique="control-dependence and index-discipline rules on the syntax tree; range-coverage dataflow for shared scratch",
+        text=("Decides: every access to wave_in / wave_out in the seven process_into_buffer bodies and in validate_buffers is under the mask bit of the same channel (or is the outer "
+              "slice's length); inside a channel loop every per-channel container is indexed by that loop's channel variable only; state shared between channels (FFT work buffers, the "
+              "per-frame points array) is completely rewritten before use; frame counters, positions and returned counts live outside channel loops and never mention the mask. "
+              "With C18's isolation this gives channel independence and mask transparency for all inputs; numerical equality with single-channel runs is argued, not executed."),
+        note="Trusted: syn parser; realfft overwrites its whole output.",
+        design="5 C11", engine="astfacts+rules"),
+    "C14": dict(
+        level="other",
+        technique="alignment model: symbolic consistency between initial read position, kernel centre (derived from make_sincs / blend node layout) and the reported delay formula",
+        text=("Decides, per type and for all ratios / lengths, whether output_delay() is consistent with where the stream actually starts: reported/ratio must equal -(initial read "
+              "position + kernel centre offset) for the asynchronous types and the filter centre fft_size_in/2 scaled to output frames for the FFT types, within one sample; siblings must "
+              "agree. Today the two sinc types violate it (KNOWN-FINDING: they report sinc_len*ratio/2 although the start position already compensates the kernel centre; reproduced with an "
+              "impulse). The measured group delay of the filters is NOT decided."),
+        note="Trusted: syn parser, sympy. A consistency condition between three places in the code, not a measurement.",
+        design="5 C14", engine="astfacts+rules"),
 })
 
 PENDING_REASON = "decidable clauses not built yet (implementation in progress, see DESIGN.md section 9)"
